@@ -31,9 +31,9 @@ man = {
     "setup_cmd": "/venv/bin/python -W ignore -m vmc.selftest",
     "hooks": {
         "guard": "VECTORIZERS_VERIF",
-        "enable": "no build step: the package is installed editable from /repo; checks run workers with NUMBA_DISABLE_JIT=1 (interpreted), NUMBA_BOUNDSCHECK=1 or default compiled mode; no source hook is currently needed (the accumulator threshold is patched as a module global in interpreted mode)",
+        "enable": "no build step: the package is installed editable from /repo, so every check sees /repo's working tree. Workers are started with NUMBA_DISABLE_JIT=1 (interpreted), NUMBA_BOUNDSCHECK=1, default compiled mode, or - for the C04 sub-check a_accumulator_compiled only - VECTORIZERS_VERIF=1 VECTORIZERS_VERIF_COO_LIMIT=3, which makes vectorizers/coo_utils.py lower COO_QUICKSORT_LIMIT at import",
         "baseline_off_cmd": "cd /repo && env -u VECTORIZERS_VERIF /venv/bin/python -m pytest -ra -q -p no:cacheprovider --timeout=900 --continue-on-collection-errors",
-        "source_commits": [],
+        "source_commits": [l.split()[0] for l in __import__("subprocess").run(["git", "-C", "/repo", "log", "--format=%h %s"], capture_output=True, text=True).stdout.splitlines() if "verification hook" in l],
         "add_only": True,
     },
     "engines": [{"name": "vmc", "path": "/verif/vmc", "serves_properties": [c["property_id"] for c in checks],
